@@ -32,8 +32,7 @@ HandNeed(ln, g) == Need(g.edges, ln.blocks, ln.bonds)
 HandClauses(ln, z, g, nd) ==
   << <<"CapRespected", WithinCap(ln.bonds, ln.cap)>>,
      <<"BoundaryPartition", BlocksDisjoint(ln.blocks)>>,
-     <<"OnGrid", (Has(ln, "value") /\ Untruncated(ln, nd)) => ln.ongrid>>,
-     <<"ExactWhenUntruncated", (Has(ln, "value") /\ ln.ongrid /\ Untruncated(ln, nd)) => ln.value = z>> >>
+     <<"ExactWhenUntruncated", (Has(ln, "value") /\ Untruncated(ln, nd)) => (ln.ongrid /\ ln.value = z)>> >>
 
 CompressClauses(ln) ==
   << <<"CapRespected", ln.post <= ln.cap>>,
@@ -41,8 +40,7 @@ CompressClauses(ln) ==
 
 ReturnClauses(ln, z, nd) ==
   << <<"Returns", ln.exc = "">>,
-     <<"OnGrid", (ln.exc = "" /\ Untruncated(ln, nd)) => ln.ongrid>>,
-     <<"ExactWhenUntruncated", (ln.exc = "" /\ ln.ongrid /\ Untruncated(ln, nd)) => ln.result = z>>,
+     <<"ExactWhenUntruncated", (ln.exc = "" /\ Untruncated(ln, nd)) => (ln.ongrid /\ ln.result = z)>>,
      \* implementation-shaped model (C12_Approx / C12_Tree) against the observation: drift is a NOTE
      <<"NOTE:ModelSteps", (ln.exc = "" /\ Has(ln, "model_steps")) => ln.steps = ln.model_steps>>,
      <<"NOTE:ModelNeed", (ln.exc = "" /\ Has(ln, "model_need")) => nd = ln.model_need>> >>
@@ -54,7 +52,7 @@ EnvClaim(ln, g) ==
 EnvClauses(ln, z, g, nd) ==
   << <<"Returns", ln.exc = "">>,
      <<"EnvCovers", ln.exc = "" => CoversExactly(ln.cover, AtomsOf(EnvClaim(ln, g), g.nl))>>,
-     <<"EnvConsistent", ln.exc = "" => (ln.dangling = 0 /\ (Untruncated(ln, nd) => (ln.ongrid /\ ln.closed = z)))>>,
+     <<"EnvConsistent", ln.exc = "" => (ln.dangling = 0 /\ (Untruncated(ln, nd) => (ln.ongrid /\ ln.closedval = z)))>>,
      <<"CapRespected", ln.exc = "" => WithinCap(ln.bonds, ln.cap)>> >>
 
 Clauses(ln, z, g, nd) ==
